@@ -98,10 +98,14 @@ pub fn run(ctx: &Ctx) {
     let _ = Fam::Ring;
     ctx.run_sub("hal_ops_exact_scratch", t.pick(200_000, 2_000_000), 64, || strategy(8), test);
     ctx.run_sub("hal_ops_exact_scratch_large_n", t.pick(4_000, 40_000), 64, || strategy(13), test);
+    ctx.run_sub("scratch_arena_histories", t.pick(200_000, 2_000_000), 64, crate::c17arena::arena_strategy, crate::c17arena::arena_test);
 }
 
 pub fn replay(ctx: &Ctx, sub: &str, case: &serde_json::Value) -> i32 {
+    if sub == "scratch_arena_histories" {
+        return ctx.replay_case::<crate::c17arena::ArenaCase, _>(sub, case, crate::c17arena::arena_test);
+    }
     ctx.replay_case::<Case12, _>(sub, case, test)
 }
 
-pub const RULE: &str = "cases = (backend, every HAL operation that takes scratch, shapes as in C07-C09 incl. N < 8 whose temporaries are not multiples of 64 bytes); scratch = Scratch::from_bytes of a 64-byte aligned window of exactly the queried size inside a guarded allocation. Checks: no panic; guard regions intact; identical result for two scratch fills; identical result with a window enlarged by a generated delta (monotonicity, hence max over a set of queries serves each). non-trivial = query > 0 and input != 0.";
+pub const RULE: &str = "cases = (backend, every HAL operation that takes scratch, shapes as in C07-C09 incl. N < 8 whose temporaries are not multiples of 64 bytes); scratch = Scratch::from_bytes of a 64-byte aligned window of exactly the queried size inside a guarded allocation. Checks: no panic; guard regions intact; identical result for two scratch fills; identical result with a window enlarged by a generated delta (monotonicity, hence max over a set of queries serves each). non-trivial = query > 0 and input != 0. Sub-check scratch_arena_histories: histories of takes / splits on a window of 0..4096 bytes at any start alignment against a byte-level model of the arena rule (a take that fits is served 64-byte aligned inside the window, one that does not fit panics, available() equals the model); non-trivial = a take from a cursor that is not 64-byte aligned.";
